@@ -159,8 +159,15 @@ class Interp:
                 self.dead = True
             self.last_run.setdefault(key, vals)
         elif k == "get_run_func":
-            c.get_run_func("pv_c14", step_size=0.01, vectorize=vec, in_place=False, clear=bool(op.get("clear", False)),
-                           verbose=False, float_precision="float64", backend="default")
+            out = c.get_run_func("pv_c14", step_size=0.01, vectorize=vec, in_place=False, clear=bool(op.get("clear", False)),
+                                 verbose=False, float_precision="float64", backend="default")
+            # the initial state handed out with the function is the declared one, whatever was simulated (in_place=False) before
+            y0 = np.sort(np.asarray(out[1][1], dtype=float).ravel())
+            want = np.sort(np.array([self.rm.y0()[p] for p in sp], dtype=float))
+            if y0.shape != want.shape or np.max(np.abs(y0 - want)) > 1e-12:
+                self.res.violate("initial-state-changed", f"get_run_func(in_place=False) after {self.kinds[:-1]} hands out the "
+                                                          f"initial state {y0.tolist()}, declared: {want.tolist()}")
+                self.dead = True
         elif k == "get_jacobian_func":
             c.get_jacobian_func("pv_c14j", step_size=0.01, vectorize=False, in_place=False, clear=False, verbose=False,
                                 float_precision="float64", backend="default")
